@@ -29,7 +29,7 @@ ASSUMPTIONS = [
 ]
 CONFIG = {
     "quick": {"examples": 960, "shards": 16, "shrink_s": 40, "time_budget_s": 240},
-    "thorough": {"examples": 12000, "shards": 16, "shrink_s": 200, "time_budget_s": 1500},
+    "thorough": {"examples": 72000, "shards": 16, "shrink_s": 200, "time_budget_s": 1500},
 }
 LIMIT = 2**22
 _GEN3 = None
